@@ -330,11 +330,12 @@ Definition ref_fill_func (rf : raw_file) (ps mbase addr : Z) (fr : func_raw) : s
   end.
 
 Lemma frames_spec_ext st st' chain inner :
-  st_files st = st_files st' -> st_origins st = st_origins st' ->
+  (forall k, assoc_last k (st_files st) = assoc_last k (st_files st')) ->
+  (forall k, assoc_last k (st_origins st) = assoc_last k (st_origins st')) ->
   frames_spec st chain inner = frames_spec st' chain inner.
 Proof.
   intros Hf Ho. induction chain as [|e t IH]; cbn [frames_spec]; [reflexivity|].
-  unfold inner_loc. rewrite Hf, Ho, IH. reflexivity.
+  unfold inner_loc. rewrite Ho, IH. destruct t as [|e' t']; [destruct inner|]; rewrite ?Hf; reflexivity.
 Qed.
 
 Lemma fill_func_linear rf st mbase addr fr :
@@ -353,7 +354,7 @@ Proof.
   destruct (ref_inl_chain fr addr) as [|e0 chain].
   - destruct (ref_line fr addr); [rewrite Hsrc|]; reflexivity.
   - rewrite Hsrc. f_equal. rewrite emit_is_spec. apply frames_spec_ext; cbn [st0 st_files st_origins];
-      [apply (sr_files _ _ _ Hrel)|apply (sr_origins _ _ _ Hrel)].
+      [intros k; apply (sr_files _ _ _ Hrel)|intros k; apply (sr_origins _ _ _ Hrel)].
 Qed.
 
 (* a PUBLIC is cut off exactly by a non-empty representable FUNC record between it and addr *)
